@@ -160,6 +160,14 @@ def build(sess):
     )
     check_clip_code(sess)
     check_clip(sess)
+    # binary64 stand-in (BOUNDED, labelled): the proof above is over the reals; corner-grazing segments at the precision limit are
+    # swept natively against an exact-rational clip with the property's tolerance
+    fs = native('n_c08', 'float_sweep', {'seed': sess.seed})
+    sess.extra_cov['binary64_stand_in'] = {'bounded': True, 'evaluations': fs.get('tried'), 'bound': fs.get('bound'), 'failing': bool(fs.get('found'))}
+    sess.notes.append('binary64 behaviour of clip_segment (failsafe exit, corner-grazing inputs) is only SAMPLED: ' + str(fs.get('bound')))
+    if fs.get('found'):
+        sess.native_violations.append({'obligation': 'C08/bounded/binary64-corner-lines', 'native_input': fs.get('input'), 'observed': fs.get('observed'),
+                                       'expected': fs.get('expected'), 'summary': f"clip_segment{fs.get('input')} -> {fs.get('observed')} expected {fs.get('expected')}"})
     sess.explanation = ('clip_segment (with clip_code inline) is unrolled completely; at every exit the accept/reject decision, '
                         'the position of the returned ends on the input segment (explicit parameter witnesses), containment, '
                         'orientation and maximality (for an arbitrary t) are obligations; division-by-zero paths and the failsafe '
